@@ -99,6 +99,12 @@ def run_kernel(ctx, fn, args, T, dec, iso=True):
     ctx.count('parallel_regions', st['regions'])
     ctx.count('virtual_thread_switches', st['switches'])
     ctx.count('isolated_regions', st['iso_regions'])
+    if st.get('overlap_bytes'):
+        # two threads of one team changed the same bytes of a NumPy buffer between two barriers, to the same value: their
+        # write sets overlap, which unsynchronised code only survives when the two happen not to run at the same time
+        # (zero / accumulate / square root of one output cell by two owners, say)
+        raise SimViolation('threads_write_the_same_cells', '%d bytes were changed (to the same value) by more than one thread of the team '
+                           '(T=%d) within one barrier epoch and outside any critical section' % (st['overlap_bytes'], st['max_team']))
     if st['conflict_bytes']:
         # two virtual threads of one team wrote different values to the same bytes of a NumPy buffer between two
         # barriers: in a race-free region the threads' write sets are disjoint
